@@ -11,3 +11,15 @@ PROPS = {
         assumptions=["objects.GetCommit returns the stored commit (C06)", "commit times compared at whole-second resolution (what the commit encoding stores)"],
     ),
 }
+
+PROPS["C04"] = dict(
+    lean_modules=["WrglModel.Props.C04"],
+    quick_n=160, thorough_n=2500,
+    rule="pairs of tables ingested through the real sorter/inserter (0..2 blocks quick, 0..4 thorough; 1..3 columns; "
+         "single/composite/absent key) related by identity/emptiness/random edits/nested/disjoint/block-edge deletions, "
+         "diffed with diff.DiffTables; non-trivial = a side is empty, or a side has >=2 blocks, or the diff has added, "
+         "removed and modified rows together; distinct = distinct (op, input)",
+    modelled="pkg/diff/iterate.go (findOverlappingBlocks, getBlockIndices, iterateAndMatch), pkg/diff/diff.go (diffRows), objects.BlockIndex.Get",
+    assumptions=["meow hashes of distinct keys/rows of a run are distinct (hash values are taken from the Go run)",
+                 "column comparison / non-equal-column diffs (CompareColumns) are outside this model"],
+)
